@@ -447,6 +447,28 @@ theorem gen_maf_inv_scan_fn {α : Type} [Add α] [Mul α] [Neg α] [OfNat α 0] 
       = ((N.invStep (fun ps t => (tf ps).inv t ()) (c.getD []) y rank, rank + 1), ()) :=
   NetGenPf.gen_invScanFn_eq N tf c y rank hy hr
 
+/-- **`gen_coupling_init_spec`** — the generated fragment of `Coupling.__init__` (leading guard + the attributes finally
+assigned): it raises `ValueError` (`none`) iff `transformer.shape != ()` or `transformer.cond_shape is not None`; otherwise
+`shape = (dim,)`, `cond_shape = (cond_dim,)` or `None`, `untransformed_dim`, `dim` are those of the object the theorems are
+about (`CouplingObj.mk'`). -/
+theorem gen_coupling_init_spec {α : Type} [Add α] [Mul α] [Neg α] [OfNat α 0] [Inhabited α] (t : Nw.TSpec) (d dim : Nat) (cd : Option Nat) (w dep : Nat)
+    (cnd : List α → List α) (tf : List α → Bij α Unit α) :
+    (Coupling.initShapes t d dim cd w dep = none ↔ (t.shape ≠ [] ∨ t.cond_shape ≠ none)) ∧
+    (t.shape = [] → t.cond_shape = none →
+      Coupling.initShapes t d dim cd w dep
+        = some ((CouplingObj.mk' d dim cd cnd tf).shape, (CouplingObj.mk' d dim cd cnd tf).cond_shape,
+                (CouplingObj.mk' d dim cd cnd tf).untransformed_dim, (CouplingObj.mk' d dim cd cnd tf).dim)) :=
+  NetGenPf.gen_coupling_init_spec t d dim cd w dep cnd tf
+
+/-- **`gen_maf_init_spec`** — the generated fragment of `MaskedAutoregressive.__init__`: the same guard, and
+`shape = (dim,)`, `cond_shape` as `MafObj.ofNet` declares them (`_flat_params_to_transformer` reads `self.shape[-1]`). -/
+theorem gen_maf_init_spec {α : Type} [Add α] [Mul α] [Neg α] [OfNat α 0] [Inhabited α] (t : Nw.TSpec) (w dep : Nat) (N : MafNet α)
+    (tf : List α → Bij α Unit α) :
+    (Maf.initShapes t N.dim N.condDim w dep = none ↔ (t.shape ≠ [] ∨ t.cond_shape ≠ none)) ∧
+    (t.shape = [] → t.cond_shape = none →
+      Maf.initShapes t N.dim N.condDim w dep = some ((MafObj.ofNet N tf).shape, (MafObj.ofNet N tf).cond_shape)) :=
+  NetGenPf.gen_maf_init_spec t w dep N tf
+
 /-- **`gen_coupling_lawful`** — the GENERATED `Coupling` methods: `transform` maps the vectors of length `dim` whose
 transformed coordinates lie in `D₁` to those in `E₁`, `inverse` maps back, `inverse(transform(x)) = x`,
 `transform(inverse(y)) = y`, and each `…_and_log_det` returns the plain method's point — every conditioner function,
